@@ -5,4 +5,26 @@ CHECKS = {
   "note": "Trusted: the reference models in props/C10.py; frames carry the sender's true bytes; the caller contract of the send half as QuicConnection uses it. States after a FIN/reset below already-received data are not explored (statement silent).",
  },
 }
+CHECKS.update({
+ "C08": {
+  "technique": "Hypothesis rule-based state machine with a ledger model (invariants after every step)",
+  "text": "A rule-based machine drives QuicPacketRecovery (Reno and CUBIC, three packet number spaces) with send / ack(arbitrary range sets incl. never-sent and already-acked numbers) / time advance + loss timer / space discard; every packet carries a recording delivery handler. After every step: bytes_in_flight equals the in-flight packets still tracked and is >= 0, tracked packets equal the ledger, handlers fire at most once (ACKED only for numbers in the ack, never after discard), cwnd >= 2 datagrams, a loss timer exists while ack-eliciting packets are outstanding. Sampled sequences, shrunk on failure.",
+  "note": "Caller contract of QuicConnection (monotonic time, increasing packet numbers, timer fired only when due). The wire-level half of the statement (in-flight bytes on the wire vs congestion window) is checked by the simulator-based tasks of this check when present in the evidence.",
+ },
+ "C14": {
+  "technique": "metamorphic testing (re-chunking / interleaving invariance) + round trip, Hypothesis-generated traffic and plans, exhaustive splittings of short streams",
+  "text": "A real sending H3Connection (QPACK dynamic table on) produces requests, responses, trailers, pushes, WebTransport streams and datagrams; the recorded per-stream bytes are replayed into fresh receivers under generated splittings and cross-stream interleavings (every splitting for short tails). The normalised events of every plan must equal those of whole in-order delivery and what was submitted; no plan may close the connection.",
+  "note": "Only sender-produced (valid) streams; pylsqpack is environment; normal form concatenates adjacent payloads. Sampled plans beyond the exhaustive short-stream part.",
+ },
+ "C15": {
+  "technique": "exhaustive boundary-alphabet enumeration + Hypothesis, judged by an independent validator (two-directional oracle)",
+  "text": "All header names/values over a 13-byte boundary alphabet up to length 3 (4 in thorough), all pseudo-header sequences up to length 4 (5) in four contexts, and content-length spellings x body splits x chunkings are delivered through a literal QPACK encoder; an independent validator written from the statement decides for each block whether it may reach the application (delivered => well-formed) and whether it must be refused with H3_MESSAGE_ERROR (malformed => no event + 0x10e).",
+  "note": "Blocks refused for reasons beyond the statement, non-1*DIGIT content-length spellings and blocks refused by the QPACK decoder itself are accepted either way. Trusted: props/C15.py validator, vlib/h3bench.py literal encoder.",
+ },
+ "C16": {
+  "technique": "grammar-based + mutation fuzzing with Hypothesis (totality oracle), then differential close over a real connection pair",
+  "text": "Per-stream byte sequences for every stream kind and both roles are built from a frame grammar (lying/zero/huge lengths, truncated varints, reserved/duplicate/truncated SETTINGS, malformed MAX_PUSH_ID / PUSH_PROMISE, garbage QPACK, oversized and non-UTF-8 names and values) after valid prefixes from a real sender, randomly chunked and interleaved, with qlog on and off; H3Connection/H0Connection.handle_event must return normally. Every distinct (code, reason) produced, plus very long reasons, is passed to close() on a real connected QUIC pair: datagrams_to_send must not raise and the peer must report termination with that code.",
+  "note": "Events are generated only for streams the peer can write to. Exceptions are bucketed by (type, innermost aioquic function). pylsqpack is environment.",
+ },
+})
 PENDING = {}
